@@ -18,7 +18,7 @@ var jumpLen = zz.JumpLen()
 
 var patchTargets = []hwd.Target{hwd.TF0, hwd.TF1, hwd.TM, hwd.TLm, hwd.TG, hwd.TG2own, hwd.TG2hw, hwd.TLoop}
 
-var behaviourTargets = append(append([]hwd.Target{}, patchTargets...), hwd.TXA)
+var behaviourTargets = append(append([]hwd.Target{}, patchTargets...), hwd.TXA, hwd.TGen)
 
 func alphabet(thorough bool) []hwd.Op {
 	var a []hwd.Op
@@ -37,6 +37,7 @@ func alphabet(thorough bool) []hwd.Op {
 		add(0, hwd.TG2own, hwd.KApplyA, hwd.KCancel) // unexported function by name; own.g2 or, after Pkg, hw.g2
 		add(0, hwd.TLoop, hwd.KApplyA, hwd.KApplyORefused) // a plain mock works, an apply with an origin placeholder must be refused
 		add(0, hwd.TXA, hwd.KApplyA, hwd.KReturn) // an interface method: its stubs live outside the image, which must stay pristine however many are made
+		add(0, hwd.TGen, hwd.KReturn, hwd.KCancel) // a generic instantiation (registered under its shape body, named through its wrapper)
 		a = append(a, hwd.Op{B: 0, K: hwd.KPkg})
 		a = append(a, hwd.Op{B: 0, T: hwd.TF0, K: hwd.KApplyA, Kept: true}, hwd.Op{B: 0, T: hwd.TM, K: hwd.KApplyA, Kept: true})
 		a = append(a, hwd.Op{B: 0, K: hwd.KReset}, hwd.Op{B: 1, K: hwd.KReset})
@@ -53,6 +54,7 @@ func alphabet(thorough bool) []hwd.Op {
 	add(0, hwd.TG2own, hwd.KApplyA, hwd.KReturn, hwd.KCancel)
 	add(0, hwd.TLoop, hwd.KApplyA, hwd.KCancel, hwd.KApplyORefused)
 	add(0, hwd.TXA, hwd.KApplyA, hwd.KReturn)
+	add(0, hwd.TGen, hwd.KReturn, hwd.KCancel)
 	a = append(a, hwd.Op{B: 0, K: hwd.KPkg})
 	a = append(a, hwd.Op{B: 0, T: hwd.TF0, K: hwd.KApplyA, Kept: true}, hwd.Op{B: 0, T: hwd.TM, K: hwd.KApplyA, Kept: true}, hwd.Op{B: 1, T: hwd.TF0, K: hwd.KApplyA, Kept: true})
 	return a
@@ -64,6 +66,11 @@ func check(w *hwd.World, m *hwd.Model, hist []hwd.Op) (fail string, judged, unju
 	for _, t := range patchTargets {
 		if len(m.Owners(t)) > 0 {
 			e := hwd.EntryPC(t)
+			allowed = append(allowed, vk.Range{Lo: e, Hi: e + uintptr(jumpLen)})
+		}
+	}
+	if len(m.Owners(hwd.TGen)) > 0 {
+		for _, e := range hwd.GenEntries() {
 			allowed = append(allowed, vk.Range{Lo: e, Hi: e + uintptr(jumpLen)})
 		}
 	}
